@@ -204,6 +204,7 @@ def handleSeq (inp impl : Json) : R OpResult := do
     let mut panicked := false
     let mut invOk := true
     let mut idemOk := true
+    let mut exactOk := true
     let mut clause : List (String × Bool) := []
     for ((s, _), calls) in steps.zip iSteps do
       let mut first := true
@@ -212,6 +213,8 @@ def handleSeq (inp impl : Json) : R OpResult := do
         | none => pure ()
         | some after =>
           if call.err == "panic" then panicked := true
+          -- C03: a call that reports the step as routed must leave exactly the step's share on the route
+          exactOk := exactOk && verifiedMeansExact c s.weight s.ms call.ret call.err after
           if call.err == "ok" then
             if first then
               clause := clause ++ clauseHolds c s.weight s.ms cur after
@@ -237,7 +240,8 @@ def handleSeq (inp impl : Json) : R OpResult := do
       for name in ["C13.weight", "C13.match", "C13.finalise"] do
         let vs := clause.filter (fun kv => kv.1 == name)
         if !vs.isEmpty then holds := holds ++ [(name, vs.all (fun kv => kv.2))]
-      holds := holds ++ [("C13.inv", invOk), ("C13.idem", idemOk)]
+      holds := holds ++ [("C13.inv", invOk), ("C13.idem", idemOk), ("C03.gateway_verified_means_exact", exactOk),
+                         ("C13.verified_means_exact", exactOk)]
       if fin > 0 then holds := holds ++ [("C13.sequence", restoredOk c o cur)]
   if steps.isEmpty && fin == 0 then tags := tags ++ ["trivial"]
   return { model := model, holds := holds, tags := tags }
